@@ -683,3 +683,21 @@ Qed.
 
 Lemma internal_error_code : rl_InternalError = 1.
 Proof. reflexivity. Qed.
+
+(** ** 5. Routing entries *)
+
+(** after a close processed by the loop, nothing is left once the closing period (3 PTO) is over;
+    timeouts, destroy() and closes before the first packet leave nothing from the start *)
+Lemma routing_released : forall client sf ce elapsed expiry,
+  (expiry <= elapsed -> exit_routing client sf (ExitLoop ce) elapsed expiry = 0) /\
+  (ce_immediate ce = true -> is_remote (mapped_err ce) = false -> exit_routing client sf (ExitLoop ce) elapsed expiry = 0).
+Proof.
+  intros client sf ce elapsed expiry. split.
+  - intros H. unfold exit_routing. assert (X : (expiry <=? elapsed) = true) by lia. rewrite X. reflexivity.
+  - intros I R. unfold exit_routing, close_action. rewrite R, I. destruct (expiry <=? elapsed); reflexivity.
+Qed.
+
+(** REFUTED for the early return: the connection stays registered for ever, and its API objects are never closed *)
+Lemma early_exit_leaks : forall client sf e elapsed expiry,
+  exit_routing client sf (ExitEarly e) elapsed expiry = 3 /\ exit_fanout (ExitEarly e) = None.
+Proof. intros. split; reflexivity. Qed.
